@@ -197,3 +197,16 @@ def crossed_derived_over_weighted_uncrossed(case, v=None):
                     if F[d]["kind"] == "basic" and d not in cr and any(w > 1 for _, w in F[d]["levels"]):
                         return True
     return False
+
+
+# C26 -----------------------------------------------------------------------------------------------
+def c26_atleast_tail(case, v=None):
+    """AtLeastKInARow with k >= 3 over a window of at least k+2 trials, and the sampler only returned *extra*
+    sequences (a too-short run that starts in the last k-1 trials of the window)."""
+    c = case.get("c") or {}
+    if c.get("type") != "AtLeastKInARow" or c.get("k", 0) < 3:
+        return False
+    if v is not None and v.get("n_missing", 0) != 0:
+        return False
+    span = case["TB"] if (v or {}).get("kind") == "scope_block" else case["T"]
+    return span >= c["k"] + 2
